@@ -48,4 +48,7 @@ def _body(E, w, prog):
 
 
 def instances(tier):
-    return catalog.make_instances(tier, "C03", _body, "chunks/_layer of every catalogue class through _materialize")
+    # the global count of a |step| >= 2 slice over >= 3 blocks is a sum of ceil-divisions on which z3 answers unknown (DESIGN C13);
+    # that program's block sizes are still checked under C01/C02 block by block
+    return catalog.make_instances(tier, "C03", _body, "chunks/_layer of every catalogue class through _materialize",
+                                  select=lambda name: "[::-2]" not in name)
